@@ -385,28 +385,41 @@ func c20GoGen(c *engine.C) engine.Case {
 			sb.WriteString("}\n\n")
 		}
 	}
+	grouped := c.Bool("types-in-one-parenthesised-group")
+	if grouped {
+		c.Tag("grouped-type-specs")
+	}
 	writeTypes := func() {
+		// grouped: `type ( A struct {...}; B interface {...} )` - one declaration with several specs
+		kw, ind, end := "type ", "", "\n"
+		if grouped {
+			sb.WriteString("type (\n")
+			kw, ind, end = "\t", "\t", ""
+		}
 		for _, t := range types {
 			switch t.Kind {
 			case "struct":
-				fmt.Fprintf(&sb, "type %s struct {\n", t.Name)
+				fmt.Fprintf(&sb, "%s%s struct {\n", kw, t.Name)
 				for _, f := range t.Fields {
 					if f.Name == "" {
-						sb.WriteString("\t" + f.TypeText + "\n")
+						sb.WriteString(ind + "\t" + f.TypeText + "\n")
 					} else {
-						sb.WriteString("\t" + f.Name + " " + f.TypeText + "\n")
+						sb.WriteString(ind + "\t" + f.Name + " " + f.TypeText + "\n")
 					}
 				}
-				sb.WriteString("}\n\n")
+				sb.WriteString(ind + "}\n" + end)
 			case "interface":
-				fmt.Fprintf(&sb, "type %s interface {\n", t.Name)
+				fmt.Fprintf(&sb, "%s%s interface {\n", kw, t.Name)
 				for _, m := range t.IMethod {
-					sb.WriteString("\t" + m + "(scale int) int\n")
+					sb.WriteString(ind + "\t" + m + "(scale int) int\n")
 				}
-				sb.WriteString("}\n\n")
+				sb.WriteString(ind + "}\n" + end)
 			default:
-				fmt.Fprintf(&sb, "type %s interface{}\n\n", t.Name)
+				fmt.Fprintf(&sb, "%s%s interface{}\n%s", kw, t.Name, end)
 			}
+		}
+		if grouped {
+			sb.WriteString(")\n\n")
 		}
 	}
 	if methodsFirst {
